@@ -354,6 +354,13 @@ fn mono() -> (i64, i64) {
     (t.seconds(), t.nanoseconds())
 }
 
+/// CLOCK_MONOTONIC read by the driver itself (libc, vDSO: ~20 ns), not through the library
+fn raw_mono() -> (i64, i64) {
+    let mut ts = libc::timespec { tv_sec: 0, tv_nsec: 0 };
+    unsafe { libc::clock_gettime(libc::CLOCK_MONOTONIC, &mut ts) };
+    (ts.tv_sec as i64, ts.tv_nsec as i64)
+}
+
 fn clock(threads: usize, readings: usize) {
     use std::sync::{Arc, Mutex};
     let outm = Arc::new(Mutex::new(Vec::<Value>::new()));
@@ -457,6 +464,23 @@ fn clock(threads: usize, readings: usize) {
                 out.ev(&json!({"ev":"elapsed","lane":lane,"base_s":base_ts.seconds(),"base_ns":base_ts.nanoseconds(),
                     "ds":d.as_secs(),"dns":d.subsec_nanos(),"bs":b.0,"bns":b.1,"s":a.0,"ns":a.1,"step":step}));
                 std::thread::sleep(std::time::Duration::from_millis(4));
+            }
+        }
+    }
+    // very short sleeps at NANOSECOND granularity: durations around the microsecond and the 50 us
+    // timer-slack boundaries, many repetitions, each bracketed by two raw readings of
+    // CLOCK_MONOTONIC taken by the driver (a reading through the library costs a system call, which
+    // alone would hide a sleep that returns a microsecond early); lane threads + 20
+    {
+        let lane = threads + 20;
+        for ns in [1u64, 500, 999, 1_001, 1_999, 49_999, 50_001, 999_999] {
+            let d = Duration::from_nanos(ns);
+            for _ in 0..200 {
+                let b = raw_mono();
+                let r = tiny_std::thread::sleep(d);
+                let a = raw_mono();
+                out.ev(&json!({"ev":"sleep","lane":lane,"ds":0,"dns":ns,"bs":b.0,"bns":b.1,"s":a.0,"ns":a.1,
+                    "res": if r.is_ok() { "ok" } else { "err" },"signals":0,"raw":true}));
             }
         }
     }
